@@ -20,7 +20,9 @@ SPEC = {
                      "Intel-HEX/zip decoding of the module test samples in checks/C12.py"],
 }
 
-RULE = ("every synthetic job is a SEQUENCE of three scans on one scanner: a message supplied through set_module_output, then no message (the module's own output must show), "
+RULE = ("every repeated and map field (scalars, strings, structures, nested, empty / absent / 1 / many items) is iterated with every quantifier (any, all, none, 2, 50%; for x in array, "
+        "for k,v in map), plain and under `not`, `defined`, `or false`, `and true`, with a budget of its own; block scanners (fresh, converted, converted after a scan) must agree that "
+        "every collection is empty; every synthetic job is a SEQUENCE of three scans on one scanner: a message supplied through set_module_output, then no message (the module's own output must show), "
         "then a different message through set_module_output_raw (and the reverse order of entry points); every built-in sample additionally runs supplied / computed / supplied-raw; "
         "after each scan ScanResults::module_output / module_outputs must hand back the supplied message; functions that read the output message (test_proto2.get_foo, and for pe/elf/"
         "macho/dex/crx a list of helper functions compared between computed and supplied output) are evaluated too; string and bytes values include upper/mixed case, padding, NUL, "
@@ -87,6 +89,8 @@ def classify(case):
     label = str(case.get("label", "?")).split(" ")[0]
     if case.get("crashed"):
         return "C12:crash:" + label
+    if label.startswith("block-scanner:fresh-vs-converted"):
+        return "C12:block-scanner:fresh-vs-converted"
     return "C12:" + label
 
 
